@@ -24,7 +24,7 @@ POOL = {
     "rate": ["Hz", "MHz", "1/s", "1/yr", "GHz", "1/ms"],
     "spatial_frequency": ["1/m", "1/cm", "1/angstrom", "1/nm", "cm**-1"],
     "velocity": ["m/s", "km/s", "cm/s", "mile/hr", "km/hr", "pc/Myr"],
-    "dimensionless": ["dimensionless"],
+    "dimensionless": ["dimensionless", "percent", "km/m", "dimensionless", "cm/m"],
     "density": ["kg/m**3", "g/cm**3", "Msun/pc**3", "lb/ft**3", "mg/L"],
     "number_density": ["1/m**3", "cm**-3", "1/cm**3", "1/L", "pc**-3"],
     "flux": ["W/m**2", "erg/s/cm**2", "kg/s**3", "mW/cm**2", "Lsun/pc**2"],
@@ -138,7 +138,7 @@ def judge(c, part):
         if fd == "velocity":
             vals = [b * consts()["c"] / sf for b in c["vals"]]
         else:
-            vals = list(c["vals"])
+            vals = [g / sf for g in c["vals"]]  # gamma written in a scaled dimensionless unit (percent, km/m)
     else:
         vals = [v * 10.0 ** c["expo"] for v in c["vals"]]
     if c["int"] and eq != "lorentz":
